@@ -30,13 +30,21 @@ def run(tier):
         rep.add_model(f"MC_Sched_{name}", r)
         if r.violated:
             raise MachineryError(f"model MC_Sched_{name} violates {r.violated}")
-    traces = driver_sim.gen_traces(N[tier], common.seed() + 606)
+    # a crowd: more than 10 000 pipelines of one class complete in one run (started first, it is the longest single run)
+    import multiprocessing as mp
+    ncrowd = 1 if tier == "quick" else 6
+    cpool = mp.get_context("fork").Pool(min(ncrowd, 6))
+    crowd = [cpool.apply_async(driver_sched.crowd_run, (common.seed() * 7 + 608 + i, 2 * 10**6 + i)) for i in range(ncrowd)]
+    traces = driver_sim.gen_traces(N[tier], common.seed() + 606, procs=common.NCPU - min(ncrowd, 6))
     # DAG pipelines (incl. identical parallel sinks that finish in one tick in different containers) through all policies
-    extra = driver_sched.gen_traces(N[tier] // 4, common.seed() + 607, flavours=(("mixed", 0.5), ("twins", 0.5)))
+    extra = driver_sched.gen_traces(N[tier] // 4, common.seed() + 607, flavours=(("mixed", 0.35), ("twins", 0.35), ("fast", 0.3)))
     for tr in extra:
         for e in tr:
             e["tid"] += 10**6
     traces += extra
+    traces += [c.get(timeout=3000) for c in crowd]
+    cpool.close()
+    rep.extra["crowd_runs"] = [tr[-1]["stats"]["pipelines_all"]["completion_count"] if tr[-1]["ok"] else None for tr in traces[-ncrowd:]]
     mon = _validate(traces, rep)
     rep.traces, rep.evaluations = mon.traces, mon.lines
     rep.extra["situations"] = mon.counters
@@ -54,11 +62,17 @@ def run(tier):
     return rep.finish()
 
 
+def meta_of(payload):
+    return ((payload.get("detail") or {}).get("meta")) or {}
+
+
 def replay(path):
     payload = json.loads(open(path).read())
     rp = payload.get("replay") or {}
     rep = Report("C06", "quick")
-    f = driver_sim.run_uncontended if rp.get("driver") == "C-uncontended" else driver_sim.run_random
+    f = {"C-uncontended": driver_sim.run_uncontended, "A-crowd": driver_sched.crowd_run}.get(rp.get("driver"), driver_sim.run_random)
+    if rp.get("driver") == "A":
+        f = lambda sd, tid: driver_sched.run_scenario(sd, tid, meta_of(payload).get("policy"), meta_of(payload).get("flavour"))
     mon = _validate([f(rp["seed"], 0)], rep)
     for v in mon.viols[:10]:
         print("  ", json.dumps(v)[:400])
